@@ -5,9 +5,13 @@ package patch
 import (
 	"bytes"
 	"fmt"
+	"runtime/debug"
 	"strings"
+	"sync"
+	"sync/atomic"
 	"syscall"
 	"testing"
+	"time"
 	"unsafe"
 
 	"github.com/tencent/goom/internal/bytecode/memory"
@@ -510,8 +514,143 @@ func TestC14(t *testing.T) {
 					}
 					rep.Class(fmt.Sprintf("placeholder/near=%v/%s", near, outcome))
 					rep.Stat("placeholder_cases:"+outcome, 1)
+					// the same placeholder given to a second target afterwards (one `origin` variable reused from test to
+					// test): whatever is in it by now, the next trampoline fits its sz bytes or is refused
+					if perr == nil {
+						tf2 := idle[(start+ti*37+11)%len(idle)]
+						shadow2 := append([]byte{}, region...)
+						var perr2 error
+						func() {
+							defer func() {
+								if r := recover(); r != nil {
+									perr2 = fmt.Errorf("panic: %v", r)
+								}
+							}()
+							_, perr2 = PtrTrampoline(tf2.Entry, c14Repl, phFunc)
+						}()
+						c14ForgetPatch(tf2.Entry)
+						rep.Eval(1)
+						for i := sz; i < slot; i++ {
+							if region[i] != shadow2[i] {
+								rep.Violate("C14/placeholder-overrun", fmt.Sprintf("origin placeholder of %d bytes reused for a second target (%s after %s, near=%v): byte %d beyond the placeholder (the next function) was overwritten", sz, tf2.Name, tf.Name, near, i),
+									map[string]interface{}{"placeholder_size": sz, "target": tf2.Name, "first_target": tf.Name, "near": near})
+								break
+							}
+						}
+						if perr2 != nil && !bytes.Equal(region, shadow2) {
+							rep.Violate("C14/refused-but-placeholder-modified", fmt.Sprintf("placeholder of %d bytes reused for %s refused (%v) but bytes changed", sz, tf2.Name, perr2), nil)
+						}
+						rep.Stat("placeholder_reuses", 1)
+					}
 				}
 			}
+		}
+	}
+
+	// ---- (2c) a padded placeholder that the first trampoline fills to its last padding byte, followed by a neighbour
+	//           without the usual prologue, then handed to a target that needs more room: refused, neighbour intact
+	if !light {
+		const slot = 256
+		nprobe := 60
+		qbase, qmem := c14Map((3*nprobe*slot + c14Page - 1) / c14Page)
+		_ = qbase
+		type probe struct {
+			f popFunc
+			l int
+		}
+		var probes []probe
+		at := 0
+		newSlot := func() (uintptr, []byte) {
+			c14Fresh(qmem)
+			r := qmem[at*slot : (at+1)*slot]
+			a := qbase + uintptr(at*slot)
+			at++
+			return a, r
+		}
+		asFunc := func(a uintptr) func() {
+			fv := &struct{ pc uintptr }{a}
+			return *(*func())(unsafe.Pointer(&fv))
+		}
+		try := func(entry uintptr, ph func()) (err error) {
+			defer func() {
+				if r := recover(); r != nil {
+					err = fmt.Errorf("panic: %v", r)
+				}
+			}()
+			_, err = PtrTrampoline(entry, c14Repl, ph)
+			return err
+		}
+		for i := 0; i < nprobe; i++ {
+			tf := idle[(start+i*53+7)%len(idle)]
+			a, r := newSlot()
+			for k := range r {
+				r[k] = 0xCC
+			}
+			for k := 0; k < 120; k++ {
+				r[k] = 0x90
+			}
+			r[120] = 0xC3
+			before := append([]byte{}, r...)
+			err := try(tf.Entry, asFunc(a))
+			c14ForgetPatch(tf.Entry)
+			if err != nil {
+				continue
+			}
+			l := 0
+			for k := range r {
+				if r[k] != before[k] {
+					l = k + 1
+				}
+			}
+			if l >= 18 && l < 60 {
+				probes = append(probes, probe{tf, l})
+			}
+		}
+		pairs := 0
+		for i := 0; i < len(probes) && pairs < 12; i++ {
+			for j := 0; j < len(probes) && pairs < 12; j++ {
+				pa, pb := probes[i], probes[j]
+				if pb.l <= pa.l {
+					continue
+				}
+				a, r := newSlot()
+				for k := range r {
+					r[k] = 0xCC
+				}
+				for k := 0; k < pa.l-2; k++ {
+					r[k] = 0x90
+				}
+				r[pa.l-2] = 0xC3 // body of pa.l-1 bytes, then ONE padding int3: room for exactly pa.l bytes
+				copy(r[pa.l:], []byte{0xB8, 0x2A, 0x00, 0x00, 0x00, 0xC3})
+				snap := append([]byte{}, r...)
+				rep.Journal(map[string]interface{}{"part": "placeholder-filled-then-reused", "first": pa.f.Name, "second": pb.f.Name})
+				err1 := try(pa.f.Entry, asFunc(a))
+				c14ForgetPatch(pa.f.Entry)
+				rep.Eval(1)
+				if err1 != nil || !bytes.Equal(r[pa.l:], snap[pa.l:]) {
+					if !bytes.Equal(r[pa.l:], snap[pa.l:]) {
+						rep.Violate("C14/placeholder-overrun", fmt.Sprintf("placeholder with room for %d bytes, trampoline of %s (%d bytes): bytes behind it changed", pa.l, pa.f.Name, pa.l), nil)
+					}
+					j = len(probes)
+					continue
+				}
+				snap2 := append([]byte{}, r...)
+				err2 := try(pb.f.Entry, asFunc(a))
+				c14ForgetPatch(pb.f.Entry)
+				rep.Eval(1)
+				if !bytes.Equal(r[pa.l:], snap2[pa.l:]) {
+					rep.Violate("C14/placeholder-overrun", fmt.Sprintf("a placeholder with room for %d bytes was first filled exactly by the trampoline of %s, then given to %s whose trampoline needs %d bytes: the next function was overwritten (% x -> % x), error: %v",
+						pa.l, pa.f.Name, pb.f.Name, pb.l, snap2[pa.l:pa.l+8], r[pa.l:pa.l+8], err2), map[string]interface{}{"room": pa.l, "needs": pb.l})
+				} else if err2 == nil {
+					rep.Violate("C14/placeholder-overrun", fmt.Sprintf("a %d-byte trampoline (%s) was accepted into a placeholder with room for %d bytes", pb.l, pb.f.Name, pa.l), nil)
+				}
+				pairs++
+				rep.Stat("placeholder_filled_then_reused", 1)
+				j = len(probes)
+			}
+		}
+		if pairs > 0 {
+			rep.Class("placeholder/filled-exactly-then-reused")
 		}
 	}
 
@@ -578,6 +717,85 @@ func TestC14(t *testing.T) {
 		}
 	}
 	rep.Stat("writes_crossing_a_page_boundary", int64(crossing))
+	// ---- (3b) several writers in the same two pages at once (the text writer has a lock of its own: interface stubs
+	//           in the fallback reserve and patch-level callers reach it without the patch table's lock)
+	if !light {
+		cmem := mem[:2*c14Page]
+		cbase := base
+		c14Fresh(cmem)
+		for i := range cmem {
+			cmem[i] = 0xCC
+		}
+		const writers, rounds = 6, 1500
+		var wg sync.WaitGroup
+		var faults, errs int64
+		var firstFault atomic.Value
+		bar := vmon.NewSpinBarrier(writers)
+		for w := 0; w < writers; w++ {
+			wg.Add(1)
+			go func(w int) {
+				defer wg.Done()
+				old := debug.SetPanicOnFault(true)
+				defer debug.SetPanicOnFault(old)
+				off := 64 + w*96
+				if w == writers-1 {
+					off = c14Page - 20 // one writer straddles the page boundary
+				}
+				bar.Wait()
+				for r := 0; r < rounds; r++ {
+					data := make([]byte, 40)
+					for i := range data {
+						data[i] = byte(w*37 + r + i)
+					}
+					func() {
+						defer func() {
+							if x := recover(); x != nil {
+								atomic.AddInt64(&faults, 1)
+								firstFault.CompareAndSwap(nil, fmt.Sprintf("writer %d round %d: %v", w, r, x))
+							}
+						}()
+						if err := memory.WriteTo(cbase+uintptr(off), data); err != nil {
+							atomic.AddInt64(&errs, 1)
+						}
+					}()
+					if atomic.LoadInt64(&faults) > 0 {
+						return
+					}
+				}
+			}(w)
+		}
+		done := make(chan struct{})
+		go func() { wg.Wait(); close(done) }()
+		select {
+		case <-done:
+		case <-time.After(120 * time.Second):
+			rep.Violate("C14/concurrent-writers", "six concurrent text writers did not finish within 120 s (a writer that faulted kept the writer lock?)", nil)
+		}
+		rep.Eval(writers * rounds)
+		if f := atomic.LoadInt64(&faults); f > 0 || atomic.LoadInt64(&errs) > 0 {
+			rep.Violate("C14/concurrent-writers", fmt.Sprintf("%d faults and %d errors while six goroutines wrote disjoint ranges of two pages through the text writer; first: %v", f, errs, firstFault.Load()), nil)
+		} else {
+			for w := 0; w < writers; w++ {
+				off := 64 + w*96
+				if w == writers-1 {
+					off = c14Page - 20
+				}
+				for i := 0; i < 40; i++ {
+					if cmem[off+i] != byte(w*37+rounds-1+i) {
+						rep.Violate("C14/concurrent-writers", fmt.Sprintf("writer %d: byte %d of its last write is %#02x", w, i, cmem[off+i]), nil)
+						break
+					}
+				}
+			}
+		}
+		for pg := 0; pg < 2; pg++ {
+			if p := vmon.PermsOf(cbase + uintptr(pg*c14Page)); !strings.HasPrefix(p, "r-x") {
+				rep.Violate("C14/page-perms-after-write", fmt.Sprintf("page %d is %s after the concurrent writers finished", pg, p), nil)
+			}
+		}
+		rep.Class("writeto/concurrent-writers")
+		rep.Stat("concurrent_text_writes", writers*rounds)
+	}
 	if bad := img.BadPerms(); len(bad) != 0 {
 		rep.Violate("C14/page-perms-at-end", fmt.Sprintf("%v", bad), nil)
 	}
